@@ -256,6 +256,18 @@ events:
 				released = true
 				gate.Release()
 			}
+		case ev == "V":
+			// a second Tversion in mid-session (same parameters) while the target is in flight
+			if ended {
+				continue
+			}
+			p.s.Send(refcodec.Encode(refcodec.New(refcodec.Tversion, uint16(0x300+ei), "msize", 64<<10, "version", "9P2000.L.Google.7")))
+			if ok, f := p.waitFor(uint16(0x300+ei), 1, 20*time.Second); f != nil || !ok {
+				if f != nil {
+					return f
+				}
+				return failf("unrelated-request-delayed", "a Tversion in mid-session was not answered within 20 s during the flush scenario: %s", desc())
+			}
 		case ev == "D":
 			// a frame that re-uses the target's tag while the target is in flight (what a
 			// faulty client does); whatever the server makes of it, the flush rules hold
@@ -516,7 +528,7 @@ func genFlushCase(rt *rapid.T) flushCase {
 			c.Events = append(c.Events, "O")
 		default:
 			if !rel && rapid.IntRange(0, 2).Draw(rt, "dup") == 0 {
-				c.Events = append(c.Events, "D")
+				c.Events = append(c.Events, rapid.SampledFrom([]string{"D", "V"}).Draw(rt, "dv"))
 			} else {
 				c.Events = append(c.Events, "A")
 			}
@@ -560,6 +572,7 @@ func TestC14(t *testing.T) {
 	if env.Shard == 0 {
 		evsets := [][]string{
 			{"D", "F1:t", "R"}, {"F1:t", "D", "R"}, {"F1:t", "D", "F2:t", "R"},
+			{"V", "F1:t", "R"}, {"F1:t", "V", "R"}, {"F1:t", "V", "F2:t", "R"},
 			{"F1:t", "R"}, {"F1:t", "U", "R"}, {"F1:t", "F2:t", "R"}, {"F1:t", "F2:f1", "R"}, {"F1:t", "F2:f1", "F3:f2", "R"},
 			{"F1:t", "O", "I", "A", "R"}, {"F1:t", "R", "F2:t"}, {"R", "F1:t"}, {"O"}, {"I"}, {"A"}, {"F1:t"},
 			{"F1:t", "H", "R"}, {"F1:t", "X", "R"}, {"F1:t", "F2:f1", "H", "U", "R"},
